@@ -130,3 +130,104 @@ def check(ck, prog, quals, rule, note=''):
     ck.ob(rule, 'result-is-a-function-of-arguments[%d functions]' % len(fns), True)
     ck.saw('purity_closure', [f.qualname for f in fns])
     return n_reads
+
+
+# ====================================================================== ownership of mutated sets
+FRESH_CALLS = {'set', 'list', 'dict', 'frozenset', 'sorted', 'copy', 'deepcopy'}
+MUTATORS = {'add', 'update', 'append', 'extend', 'insert', 'remove', 'discard', 'clear', 'pop',
+            'sort', 'reverse', 'intersection_update', 'difference_update',
+            'symmetric_difference_update', 'setdefault', 'popitem'}
+
+
+def check_ownership(ck, fn, rule):
+    """R-OWN: a local container that is updated in place (|=, +=, .add, .update, ...) must be
+    owned by this call: every assignment to that name gives it a freshly constructed object
+    (literal, comprehension, set()/list()/dict() call, .copy()).  A name that can also be bound
+    to the result of a call on another object or to a field aliases storage that outlives the
+    call - updating it in place changes what later calls return (a history dependence)."""
+    tree = fn.node
+    mutated = {}
+    for node in ast.walk(tree):
+        if isinstance(node, ast.AugAssign) and isinstance(node.target, ast.Name) and \
+                isinstance(node.op, (ast.BitOr, ast.BitAnd, ast.BitXor, ast.Add, ast.Sub)):
+            mutated.setdefault(node.target.id, []).append(node)
+        elif isinstance(node, ast.Call) and isinstance(node.func, ast.Attribute) and \
+                isinstance(node.func.value, ast.Name) and node.func.attr in MUTATORS:
+            mutated.setdefault(node.func.value.id, []).append(node)
+
+    def fresh(expr):
+        if isinstance(expr, (ast.Set, ast.List, ast.Dict, ast.ListComp, ast.SetComp, ast.DictComp,
+                             ast.Tuple, ast.Constant)):
+            return True
+        if isinstance(expr, ast.Call):
+            f = expr.func
+            if isinstance(f, ast.Name) and f.id in FRESH_CALLS:
+                return True
+            if isinstance(f, ast.Attribute) and f.attr == 'copy':
+                return True
+            if isinstance(f, ast.Attribute) and f.attr in ('union', 'difference',
+                                                           'symmetric_difference') \
+                    and f.attr != fn.name:
+                return True
+        if isinstance(expr, ast.BinOp):
+            return True          # a | b, a + b build new objects
+        return False
+
+    def sources(name):
+        """(expr, node) for every binding of `name` in the function."""
+        out = []
+        for node in ast.walk(tree):
+            if isinstance(node, ast.Assign):
+                for t in node.targets:
+                    if isinstance(t, ast.Name) and t.id == name:
+                        out.append((node.value, node))
+                    elif isinstance(t, (ast.Tuple, ast.List)) and isinstance(node.value, (ast.Tuple, ast.List)) \
+                            and len(t.elts) == len(node.value.elts):
+                        for te, ve in zip(t.elts, node.value.elts):
+                            if isinstance(te, ast.Name) and te.id == name:
+                                out.append((ve, node))
+                    elif isinstance(t, (ast.Tuple, ast.List)):
+                        for te in t.elts:
+                            if isinstance(te, ast.Name) and te.id == name:
+                                out.append((None, node))
+        return out
+
+    n = 0
+    for name, sites in sorted(mutated.items()):
+        if name in fn.params:
+            continue
+        srcs = sources(name)
+        # numeric accumulators (x += 1) are not containers: require at least one container source
+        container = any(isinstance(e, (ast.Set, ast.List, ast.Dict, ast.ListComp, ast.SetComp,
+                                       ast.DictComp)) or
+                        (isinstance(e, ast.Call) and isinstance(e.func, ast.Name) and
+                         e.func.id in ('set', 'list', 'dict')) for e, _ in srcs) or \
+            any(isinstance(s, ast.Call) for s in sites)
+        if not container:
+            continue
+        n += 1
+        bad = None
+        for expr, node in srcs:
+            e = expr
+            # follow one level of local aliasing: x = y where y = <call on another object>
+            if isinstance(e, ast.Name) and e.id not in fn.params:
+                inner = sources(e.id)
+                for ie, inode in inner:
+                    if ie is not None and not fresh(ie):
+                        bad = (ie, node)
+                continue
+            if e is None or isinstance(e, ast.Name):
+                continue
+            if not fresh(e):
+                bad = (e, node)
+        ck.ob(rule, '%s::%s' % (fn.qualname, name), bad is None,
+              '%s updates `%s` in place (line %d) although `%s` can be bound to `%s` (line %d), an '
+              'object owned by another node / a field: the update leaks into what later calls '
+              'return' % (fn.qualname, name, sites[0].lineno, name,
+                          ast.unparse(bad[0])[:60] if bad else '', bad[1].lineno if bad else 0),
+              fn.loc(sites[0]), key='%s::aliased-update:%s' % (fn.qualname, name))
+    return n
+
+
+def _is_recursive_or_field_call(f, fn):
+    return False
